@@ -1034,6 +1034,25 @@ func (pid *grainPID) passivationTry(reason string) bool {
 		return pid.enqueuePassivationPill()
 	}
 
+	// Every other grain is deactivated here, on the manager goroutine - but only
+	// while this goroutine OWNS the grain's dispatch turn. Taking Idle ->
+	// Processing is what a worker's turn holds while it runs OnReceive, so no
+	// OnReceive (and no PoisonPill handling) can run concurrently with the
+	// OnDeactivate below: producers that enqueue meanwhile fail TrySchedule and
+	// are picked up by releaseTurn. When the grain is not Idle - a turn is
+	// queued or in progress - the decision travels through the mailbox like it
+	// does for a reentrancy-capable grain.
+	if !pid.schedState.v.CompareAndSwap(dispatchIdle, dispatchProcessing) {
+		return pid.enqueuePassivationPill()
+	}
+	defer pid.releaseTurn()
+
+	// re-test under the turn: a PoisonPill may have been handled between the
+	// test above and the CAS, and deactivate has no activated-guard of its own
+	if !pid.isActive() || pid.onPoisonPill.Load() {
+		return false
+	}
+
 	if pid.logger.Enabled(log.DebugLevel) {
 		pid.logger.Debugf("grain=%s reason=%s passivation triggered", pid.identity.String(), reason)
 	}
@@ -1045,6 +1064,20 @@ func (pid *grainPID) passivationTry(reason string) bool {
 		return false
 	}
 	return true
+}
+
+// releaseTurn gives up the dispatch turn passivationTry took and, like the end
+// of a worker's turn (finishOrReclaim), re-schedules the grain when input was
+// enqueued meanwhile: those producers lost TrySchedule against Processing. The
+// queued input is then failed or skipped by the inactive grain's handlers.
+func (pid *grainPID) releaseTurn() {
+	pid.schedState.reset()
+	if pid.mailbox == nil || pid.dispatcher == nil {
+		return
+	}
+	if pid.hasPendingWork() && pid.schedState.TrySchedule() {
+		pid.dispatcher.schedule(pid)
+	}
 }
 
 // enqueuePassivationPill hands the deactivation decision to the grain's turn
